@@ -338,7 +338,7 @@ def run_shard(ctx: Ctx, rec: Recorder) -> None:
         for dmg, wb in dmgs:
             for pname, ops in pats:
                 idx += 1
-                if not ctx.mine(idx) or (idx // ctx.nshards) % stride:
+                if not ctx.mine(idx) or ctx.skip(idx, stride):
                     continue
                 rec.case(["small", list(spec), list(dmg), pname])
                 run_case(rec, spec, dmg, wb, pname, ops, rng)
